@@ -75,6 +75,7 @@ type Sim struct {
 	Base      time.Time
 	nroot     int
 	seq       atomic.Int64
+	faults    *FaultPlan
 
 	// measurements
 	ClosedRecv  map[int]int // single-value receives that found the channel closed, per site
